@@ -99,7 +99,11 @@ func (d *dumper) typeID(t types.Type) int {
 		m["k"] = "struct"
 		fs := []any{}
 		for i := 0; i < u.NumFields(); i++ {
-			fs = append(fs, map[string]any{"n": u.Field(i).Name(), "t": d.typeID(u.Field(i).Type()), "emb": u.Field(i).Embedded()})
+			fname := u.Field(i).Name()
+			if fname == "_" {
+				fname = fmt.Sprintf("_%d", i)
+			}
+			fs = append(fs, map[string]any{"n": fname, "t": d.typeID(u.Field(i).Type()), "emb": u.Field(i).Embedded()})
 		}
 		m["f"] = fs
 	case *types.Interface:
